@@ -30,6 +30,9 @@ var (
 
 func Inc()                 { Counter++ }
 func (t *T) Set(v int)     { t.F = v }
+func (t *T) SetRef(p *int) { t.Ref = p }
+func (t *T) Bump()         { Counter++ }
+func (t *T) PutM(k string) { M[k] = 1 }
 func Ptr() *int            { return &Counter }
 func With(f func(p *int))  { f(&Counter) }
 func SetM(k string, v int) { M[k] = v }
@@ -60,6 +63,11 @@ var attempts = []attempt{
 	{"assign-global", "x.Counter = 5"},
 	{"incdec-global", "x.Counter++"},
 	{"method-on-global-ptr", "x.S.Set(9)"},
+	{"method-on-struct-global", "x.V.Set(9)"},
+	{"method-stores-own-object-in-p", "x.S.SetRef(&own)"},
+	{"method-mutates-other-global", "x.S.Bump()"},
+	{"method-inserts-into-map-global", `x.S.PutM("z")`},
+	{"method-via-local-copy-of-ptr", "q := x.S; q.Set(9)"},
 	{"field-via-global-ptr", "x.S.F = 9"},
 	{"field-of-struct-global", "x.V.F = 9"},
 	{"map-insert", `x.M["z"] = 1`},
@@ -78,7 +86,7 @@ var attempts = []attempt{
 	{"func-var-reassign", "x.Fn = func() int { return 8 }"},
 }
 
-var forms = []string{"call", "run", "init", "varinit"}
+var forms = []string{"call", "run", "init", "varinit", "init-then-read-in-same-tx"}
 
 type mcase struct {
 	form string
@@ -194,8 +202,6 @@ func (w *mworld) attempt(mc mcase, first string) bool {
 			r.Violation("p-package-state-mutated-within-tx:"+mc.id(), map[string]any{"first_attempt_on_this_package": first, "history": append([]string{}, w.hist...),
 				"statement": mc.a.stmt, "snapshot_before": w.snap, "snapshot_seen_by_the_mutating_tx": data})
 			r.Outcome("mutation:" + mc.id() + ":MUTATED-IN-TX")
-			w.observe(mc, first)
-			return false
 		}
 	case "run":
 		src := fmt.Sprintf("package main\n\n%svar own = 3\n\nfunc main() {\n\t%s\n\t_ = own\n\tprintln(x.Snapshot())\n}\n", imp, mc.a.stmt)
@@ -205,15 +211,47 @@ func (w *mworld) attempt(mc mcase, first string) bool {
 		if good {
 			class = "ran-without-error"
 		}
-	case "init":
-		class = "rejected"
-		if deploy("i", fmt.Sprintf("package i%s\n\n%svar own = 3\n\nfunc init() {\n\t%s\n\t_ = own\n}\n", tag, imp, mc.a.stmt)) {
-			class = "ran-without-error"
+	case "init", "varinit", "init-then-read-in-same-tx":
+		// the deployed package records what its own initialisation saw after the statement
+		var src string
+		if mc.form == "varinit" {
+			src = fmt.Sprintf("package i%s\n\n%svar own = 3\n\nvar Seen = func() string {\n\t%s\n\t_ = own\n\treturn x.Snapshot()\n}()\n\nfunc GetSeen(cur realm) string { return Seen }\n", tag, imp, mc.a.stmt)
+		} else {
+			src = fmt.Sprintf("package i%s\n\n%svar own = 3\n\nvar Seen string\n\nfunc init() {\n\t%s\n\t_ = own\n\tSeen = x.Snapshot()\n}\n\nfunc GetSeen(cur realm) string { return Seen }\n", tag, imp, mc.a.stmt)
 		}
-	case "varinit":
 		class = "rejected"
-		if deploy("v", fmt.Sprintf("package v%s\n\n%svar own = 3\n\nvar _ = func() int {\n\t%s\n\t_ = own\n\treturn 0\n}()\n", tag, imp, mc.a.stmt)) {
+		path := "gno.land/r/aa/i" + tag
+		if mc.form == "init-then-read-in-same-tx" {
+			// one tx, two messages: the deployment, then a read of the /p/ state through the reader realm
+			w.c.BeginBlock()
+			res := w.c.DeliverTx(w.c.MakeTx(keys, []std.Msg{chainx.AddPkg(A.Addr, path, map[string]string{"m.gno": src}), chainx.Call(A.Addr, nil, w.rdPath, "Read")}, chainx.TxOpt{GasWanted: 60_000_000}))
+			nTx.Add(1)
+			w.c.EndBlockCommit()
+			w.hist = append(w.hist, "tx[deploy("+mc.id()+"), call(reader.Read)]")
+			if res.Error != nil {
+				break
+			}
 			class = "ran-without-error"
+			if !strings.Contains(string(res.Data), strings.TrimSpace(w.snap)) {
+				r.Violation("p-package-state-mutated-for-later-message-of-same-tx:"+mc.id(), map[string]any{"first_attempt_on_this_package": first, "history": append([]string{}, w.hist...),
+					"statement": mc.a.stmt, "snapshot_before": w.snap, "tx_data(deploy result, then Read result)": string(res.Data), "p_package": w.pxPath})
+				w.observe(mc, first)
+				return false
+			}
+			break
+		}
+		if !deploy("i", src) {
+			break
+		}
+		class = "ran-without-error"
+		data, good2, log := w.tx(chainx.Call(U.Addr, nil, path, "GetSeen"))
+		if !good2 {
+			r.HarnessError("GetSeen: %s", log)
+		}
+		if data != w.snap {
+			r.Violation("p-package-state-mutated-within-tx:"+mc.id(), map[string]any{"first_attempt_on_this_package": first, "history": append([]string{}, w.hist...),
+				"statement": mc.a.stmt, "snapshot_before": w.snap, "snapshot_seen_by_the_deploying_package_after_the_statement": data, "p_package": w.pxPath})
+			r.Outcome("mutation:" + mc.id() + ":MUTATED-IN-TX")
 		}
 	}
 	r.Outcome("mutation:" + mc.form + ":" + class)
